@@ -974,6 +974,11 @@ def mon_c31(tr: Trace) -> list[Violation]:
             out.append(Violation("C31/finished_run_timed_out", f"run ended as {kind} but WorkflowTimedOutEvent was published", case))
         if timeout is not None and tr.end_time > start_t + timeout and not harness_cancel:
             out.append(Violation("C31/unfinished_run_not_timed_out", f"run with timeout {timeout} started at {start_t} was still running at {tr.end_time} and ended as {kind}", case))
+        if timeout is not None and harness_cancel:
+            # the harness ends a run only when nothing is runnable AND no timer is pending: a run with a timeout always has its
+            # timeout timer pending until it ends, so this run would have stayed unfinished for ever
+            out.append(Violation("C31/unfinished_run_never_timed_out", f"run with timeout {timeout} ({'resumed' if tr.spec.get('_resumed') else 'fresh'}) got stuck with no timer pending: "
+                                 f"its timeout was never armed", case))
     if kind == "cancelled":
         if len(cancelled) != 1 or not isinstance(pubs[-1], WorkflowCancelledEvent):
             out.append(Violation("C31/cancel_without_cancelled_event_last", f"WorkflowCancelledEvent published {len(cancelled)} times, last event {type(pubs[-1]).__name__ if pubs else None}", case))
